@@ -278,6 +278,27 @@ theorem directions_independent (cd : Codec) (s s' : Stream) (b : Bytes) (es : Bo
       simp [hn] at h
       rw [← h.1]; simp [Stream.set]
 
+/-! ## 7. Facts regenerated from the source on every check (finite tables: `decide`) -/
+
+/-- adapter.Header tests `content-type` = `application/grpc` (exactly) and reads `grpc-encoding` -/
+theorem facts_grpc_header_tests : Generated.Grpc.headerTests =
+    [("h.Name", "content-type"), ("h.Value", "application/grpc"), ("h.Name", "grpc-encoding")] := by decide
+
+theorem facts_grpc_encoding_names : Generated.Grpc.encodingNames =
+    [("identity", "Identity"), ("gzip", "Gzip"), ("deflate", "Deflate"), ("snappy", "Snappy")] := by decide
+
+/-- the message prefix is 5 bytes (flag + big-endian uint32), as in the model -/
+theorem facts_grpc_prefix_len : Generated.Grpc.prefixLen = 5 := by decide
+
+/-- For every encoding the emitter writes the format the adapter reads (the structural side of
+`Codec.RoundTrip`; F11c was snappy-framed in, snappy-block out). -/
+theorem facts_grpc_codec_symmetric :
+    Generated.Grpc.decodeCalls.map (fun r => (r.1, formatsOf r.2))
+      = Generated.Grpc.encodeCalls.map (fun r => (r.1, formatsOf r.2))
+    ∧ Generated.Grpc.decodeCalls.map (fun r => (r.1, formatsOf r.2))
+      = [("Identity", []), ("Gzip", ["gzip"]), ("Deflate", ["deflate"]), ("Snappy", ["snappy-framed"])] := by
+  decide
+
 /-! ## Non-vacuity: the hypotheses above are satisfiable -/
 
 /-- a library that stores data uncompressed satisfies the round-trip hypothesis -/
